@@ -440,12 +440,62 @@ class Graph:
         elif k == "dataset":
             obj = self.dataset(n["ds"], nid)
         elif k == "namespace":
-            members = {name: self.node(m) for name, m in n["members"]}
-            obj = Namespace(n["key"], members)
+            if n.get("via") == "decorator":
+                obj = Option.namespace(self.ns_class(nid, top=True))
+                self.ns_register(nid, obj)
+            else:
+                members = {name: self.node(m) for name, m in n["members"]}
+                obj = Namespace(n["key"], members)
         else:
             raise ValueError(f"unknown node kind {k}")
         self.built[nid] = self.reg(obj, nid)
         return obj
+
+    def ns_class(self, nid, top=False):
+        """the class a namespace is declared with: annotations, plain defaults, explicit Options,
+        nested classes (implicit sub-namespaces) and pre-decorated sub-namespaces"""
+        n = self.nodes[nid]
+        local = n["key"].split(".")[-1]
+        attrs = {}
+        annots = {}
+        for name, m in n["members"]:
+            mn = self.nodes[m]
+            if mn["k"] == "namespace":
+                sub = self.ns_class(m)
+                if mn.get("explicit"):
+                    sub = Option.namespace(mn["key"].split(".")[-1])(sub)
+                attrs[name] = sub
+                continue
+            style = mn.get("style", "option")
+            kw = {}
+            if mn.get("dflt") is not None:
+                d = self.nodes[mn["dflt"]]
+                kw["default"] = d["t"] if d["k"] == "template" else (dec(d["v"]) if d["k"] == "value" else self.node(mn["dflt"]))
+            if mn.get("dom") is not None:
+                kw["domain"] = dec(self.nodes[mn["dom"]]["v"])
+            if style == "annot" and not kw:
+                annots[name] = int
+            elif style == "plain" and "domain" not in kw and "default" in kw and not isinstance(kw["default"], Evaluatable):
+                attrs[name] = kw["default"]
+            else:
+                attrs[name] = Option(name, **kw)
+        if annots:
+            attrs["__annotations__"] = annots
+        return type(local, (), attrs)
+
+    def ns_register(self, nid, obj):
+        n = self.nodes[nid]
+        for name, m in n["members"]:
+            real = obj._members[name]
+            self.built[m] = self.reg(real, m)
+            if self.nodes[m]["k"] == "namespace":
+                self.ns_register(m, real)
+            else:
+                mn = self.nodes[m]
+                if mn.get("dflt") is not None and real.default is not MISSING:
+                    self.built[mn["dflt"]] = self.reg(real.default, mn["dflt"])
+                if mn.get("dom") is not None and real.domain is not MISSING:
+                    self.built[mn["dom"]] = self.reg(real.domain, mn["dom"])
 
     def _reg_factory(self, dn):
         d = self.nodes[dn]
@@ -550,7 +600,7 @@ class Graph:
         self.ov_objs[d["ov"]] = obj.overloads
         # registrations present from the start
         for key, i in o.get("table", []):
-            obj.register(_hashable(dec(key)), self.node(i))
+            _register(obj, _hashable(dec(key)), self.node(i))
         if has_dispatch and not isinstance(kwargs["dispatch"], str):
             pass
         elif has_dispatch:
@@ -563,6 +613,14 @@ class Graph:
             self.built[cb_fn_nid] = self.reg(obj.callback.tail.step, cb_fn_nid)
         KEEP.append(obj)
         return obj
+
+
+def _register(ds, key, impl):
+    """registration through the public API: the overload decorator for datasets, register otherwise"""
+    if isinstance(impl, Dataset):
+        ds.overload(key)(impl)
+    else:
+        ds.register(key, impl)
 
 
 def _hashable(x):
@@ -618,7 +676,7 @@ def run_program(prog):
         for n in prog.get("nodes", []):
             # constants are built where they are used (the public API wraps them itself)
             if n["k"] != "value" and not n.get("h") and not (n["k"] == "template" and not n.get("params")) \
-                    and not (n["k"] == "funapp" and n.get("factory")):
+                    and not (n["k"] == "funapp" and n.get("factory")) and not n.get("nsmember"):
                 g.node(n["id"])
     except Exception as e:  # construction failure is an observation of its own
         built_err = [type(e).__name__, str(e)[:200]]
@@ -648,7 +706,10 @@ def run_op(g, op):
             for dsid, d in g.dss.items():
                 if g.ds_objs.get(dsid) is not None and g.ds_objs[dsid].overloads is ov:
                     tgt = g.ds_objs[dsid]
-            (tgt or ov).register(_hashable(dec(op["key"])), g.node(op["n"]))
+            if tgt is not None:
+                _register(tgt, _hashable(dec(op["key"])), g.node(op["n"]))
+            else:
+                ov.register(_hashable(dec(op["key"])), g.node(op["n"]))
         elif name == "set_dispatch":
             ds = g.ds_objs[op["ds"]]
             dn = g.nodes[op["dispatch"]]
